@@ -25,7 +25,7 @@ Section Group.
   Let keys := q_keys q.
   Let aggs := q_aggs q.
   Let nk := length keys.
-  Let engine := sel_aggs q.
+  Let engine := engine_aggs q.
   Let fs := map mfn_of engine.
 
   Hypothesis Hkeys : forallb is_plain keys = true.
@@ -51,7 +51,7 @@ Section Group.
   Lemma agg_plain : forall a, In a aggs -> plain_agg a = true.
   Proof. intros a I. rewrite forallb_forall in Haggs. now apply Haggs. Qed.
   Lemma engine_plain : forall a, In a engine -> plain_agg a = true.
-  Proof. intros a I. apply agg_plain. now apply sel_aggs_from. Qed.
+  Proof. intros a I. apply agg_plain. now apply engine_from. Qed.
 
   (* the slot of an engine aggregate holds the fold of its function *)
   Lemma arow_slot : forall j a', nth_error engine j = Some a' ->
@@ -86,18 +86,18 @@ Section Group.
     - exfalso. apply (No (ECol c)); [eapply nth_error_In; eauto|reflexivity].
   Qed.
 
-  Lemma by_name_agg_sel : forall i a, (nk <= i)%nat -> nth_error aggs (i - nk) = Some a -> In i (q_sel q) ->
+  Lemma by_name_agg_sel : forall i a, (nk <= i)%nat -> nth_error aggs (i - nk) = Some a ->
+    (exists a', In a' engine /\ name_eqb (agg_name a) (agg_name a') = true) ->
     env_by_name q engine arow i = SOk (frun (mfn_of a) grows).
   Proof.
-    intros i a L N I.
+    intros i a L N [a0 [Ie Ne]].
     assert (Lt : Nat.ltb i nk = false) by (apply Nat.ltb_ge; exact L).
     unfold env_by_name. fold keys nk aggs. rewrite Lt, N. f_equal. unfold lookup_agg.
-    assert (Ie : In a engine) by (apply (sel_aggs_in q i a I); [exact Lt|exact N]).
     assert (Pa : plain_agg a = true) by (apply agg_plain; eapply nth_error_In; eauto).
     destruct (find_name_spec (agg_name a) engine nk None) as [[j [a' [Nj [Nm F]]]]|[No _]].
     - rewrite F. rewrite (arow_slot j a' Nj).
       rewrite (name_same_mfn a a' Pa (engine_plain a' (nth_error_In _ _ Nj)) Nm). reflexivity.
-    - exfalso. pose proof (name_refl a Pa). pose proof (No a Ie). congruence.
+    - exfalso. pose proof (No a0 Ie). congruence.
   Qed.
 
   Lemma by_name_total : forall i, (i < nk + length aggs)%nat -> exists v, env_by_name q engine arow i = SOk v.
@@ -137,7 +137,8 @@ Section Group.
   (* HAVING: over the positions it may mention (keys, selected aggregates) the named environment is
      the reference environment *)
   Lemma having_same : forall h,
-    (forall i, In i (cols_of h) -> Nat.ltb i nk = true \/ In i (q_sel q)) ->
+    (forall i, In i (cols_of h) -> Nat.ltb i nk = true \/
+       (forall a, nth_error aggs (i - nk) = Some a -> exists a', In a' engine /\ name_eqb (agg_name a) (agg_name a') = true)) ->
     sem3 h (map ebn (seq O (nk + length aggs))) = sem3 h env.
   Proof.
     intros h Hall. apply sem3_ext. intros i Hi.
@@ -148,7 +149,7 @@ Section Group.
         destruct (key_plain i k N) as [c ->]. destruct (by_name_key i c N) as [v [E Ev]]. now rewrite E, Ev.
       + apply Nat.ltb_ge in Lt. destruct (nth_error aggs (i - nk)) as [a|] eqn:N; [|apply nth_error_None in N; lia].
         destruct (Hall i Hi) as [C|I]; [apply Nat.ltb_lt in C; lia|].
-        rewrite (by_name_agg_sel i a Lt N I). symmetry. now apply env_agg.
+        rewrite (by_name_agg_sel i a Lt N (I a N)). symmetry. now apply env_agg.
     - transitivity (@None value); [|symmetry]; apply nth_error_None; [rewrite map_length, seq_length|rewrite env_length]; lia.
   Qed.
 
@@ -171,7 +172,7 @@ Section Group.
     intros j i a L N I.
     assert (Lt : Nat.ltb i nk = false) by (apply Nat.ltb_ge; exact L).
     unfold sel_position. fold keys nk aggs. rewrite Lt, N.
-    assert (Ie : In a engine) by (apply (sel_aggs_in q i a I); [exact Lt|exact N]).
+    assert (Ie : In a engine) by (unfold engine, engine_aggs; apply add_new_acc; apply (sel_aggs_in q i a I); [exact Lt|exact N]).
     assert (Pa : plain_agg a = true) by (apply agg_plain; eapply nth_error_In; eauto).
     destruct (first_match_spec a engine nk) as [[p [g [Np [C F]]]]|[No _]].
     - rewrite F. eexists; split; [reflexivity|]. rewrite (arow_slot p g Np), (env_agg i a L N).
